@@ -563,9 +563,25 @@ pub fn token_neighbourhood(src: &str, stride: usize) -> Vec<String> {
     out
 }
 
+/// shape: a return / break / continue token inside an open bracket or string template
+fn early_exit_inside_construction(src: &str) -> bool {
+    use koto_lexer::Token as T;
+    let mut depth = 0i32;
+    for t in koto_lexer::Lexer::new(src) {
+        match t.token {
+            T::Error => break,
+            T::RoundOpen | T::SquareOpen | T::CurlyOpen | T::StringStart { .. } => depth += 1,
+            T::RoundClose | T::SquareClose | T::CurlyClose | T::StringEnd => depth -= 1,
+            T::Return | T::Break | T::Continue if depth > 0 => return true,
+            _ => {}
+        }
+    }
+    false
+}
+
 fn classify(src: &str, msg: &str) -> Option<String> {
-    if msg.contains("Return at byte") && msg.contains("open builders") {
-        return Some("return-inside-open-construction".into());
+    if ((msg.contains("Return at byte") && msg.contains("open builders")) || msg.contains("builder depths differ between paths")) && early_exit_inside_construction(src) {
+        return Some("early-exit-inside-open-construction".into());
     }
     if msg.contains("try depth grows without bound") {
         return Some("stale-catch-after-loop-exit".into());
@@ -630,6 +646,16 @@ pub fn size_ladders(tier: Tier) -> Vec<(String, String)> {
         v.push((format!("match-tuple-ellipsis-{n}"), format!("x = match (99, 98, {})\n  (..., {}) then {probe}\n  else 'no match'\nprint x\n", vals.join(", "), names.join(", "))));
         v.push((format!("for-nested-args-{n}"), format!("for ({}) in (({}),)\n  print {probe}\n", names.join(", "), vals.join(", "))));
     }
+    // import item counts and multi-assignment target counts around the 7 bit / signed 8 bit limits
+    for n in range(tier.pick(124, 118), tier.pick(131, 140)) {
+        let names: Vec<String> = (0..n).map(|i| format!("a{i}")).collect();
+        let vals: Vec<String> = (0..n).map(|i| format!("{i}")).collect();
+        v.push((format!("import-items-{n}"), format!("try\n  x = from no_such_module_anywhere import {}\n  print size x\ncatch e\n  print 'caught'\n", names.join(", "))));
+        let mut targets: Vec<String> = (0..n - 1).map(|_| "_".to_string()).collect();
+        targets.push("last".into());
+        v.push((format!("multi-assign-last-{n}"), format!("{} = {}\nprint last\n", targets.join(", "), vals.join(", "))));
+        v.push((format!("multi-assign-last-in-fn-{n}"), format!("f = ||\n  {} = {}\n  last\nprint f()\n", targets.join(", "), vals.join(", "))));
+    }
     // nested temporaries: deep nesting of calls
     for n in [60usize, 120, 200, 250, 254, 255, 256, 300] {
         let mut s = String::from("id = |x| x\nprint ");
@@ -690,6 +716,8 @@ fn expected_ladder_output(name: &str) -> Option<String> {
         "if-body" | "if-else-body" | "fn-body" | "try-body" | "match-arm" | "switch-arm" => format!("{k}\n"),
         "while-body" | "for-body" | "loop-body" | "loop-tail-break" => format!("{}\n", 2 * k),
         "and-rhs" => format!("({k}, true)\n").replace(&format!("({k}"), "(0"),
+        "import-items" => "caught\n".to_string(),
+        "multi-assign-last" | "multi-assign-last-in-fn" => format!("{}\n", k - 1),
         "nested-args" | "nested-args-ellipsis" | "nested-args-trailing-ellipsis" | "match-tuple" | "match-tuple-ellipsis" | "for-nested-args" => format!("(0, {}, {})\n", k / 2, k - 1),
         _ => return None,
     })
